@@ -1,3 +1,5 @@
+#ifndef IPR_SVMODEL_H
+#define IPR_SVMODEL_H
 /* Assumed contracts of std::u8string_view comparisons (DESIGN.md 5.2): bytewise lexicographic order; equality = same length
    and same bytes.  Views are lowered field by field: f__M_len, f__M_str.  SV_MAX bounds the lengths the harness uses. */
 typedef struct S_ZTSSt17basic_string_viewIDuSt11char_traitsIDuEE sv_t;
@@ -14,3 +16,4 @@ static int sv_cmp3(sv_t a, sv_t b)
   return a.f__M_len < b.f__M_len ? -1 : a.f__M_len > b.f__M_len ? 1 : 0;
 }
 static _Bool sv_equal(sv_t a, sv_t b) { return a.f__M_len == b.f__M_len && sv_cmp3(a, b) == 0; }
+#endif
